@@ -70,7 +70,7 @@ CHECKS = {
                 text="Run-time half (grid): all chains up to length 2 (thorough 3) of identity-typed conversions on a sized value x 5 terminal conversions, chains up to 3 for slice / str / header+slice / unsized array / RefLock<dyn>, converted weak pointers, upgrade+convert+stash in every collector phase with the handle as the only root, ZstCache<1|8|64> x alignments x entry points: identity, dereference, survival through two cycles, single destruction. The builder grid of C18 runs as a further run-time stage (a builder that completes without the caller having supplied every element hands out a value nobody constructed). Rejection half (probes): every public unsafe fn / unsafe trait used without unsafe, builders' assume_init for uninhabited and private types, safe conjuring attempts.",
                 tech="exhaustive enumeration of conversion chains on the real code + enumeration of conjuring programs with compiler verdict"),
     "C20": dict(engine="explorer", cat="model_checking", ref="5/C20",
-                text="Product exploration of two real arenas with different pacing on one thread (allocation, links, weak pointers, handles, collector steps, dropping either arena): after every operation on one arena the other arena's canonical bookkeeping (incl. colours), drop log, Gc count, debt bits, phase and handles are bit-identical, its own oracles still hold, foreign handles are refused (also stale handles meeting recycled addresses after an arena died), and C02/C04 probes hold per arena in every product state. Compile-time half: 57 programs - every brand-preserving conversion applied to a pointer of arena 1 and used with arena 2 under nested callbacks, plus the cross-arena part of the C12 grammar - must be rejected (twins within one arena compile). Handles may be owned by heap values of the other arena (released when those are destructed), and a lifecycle grid requires a newly created arena to behave exactly as on a pristine thread after every sequence of <= 2 earlier arena lifecycles (pacing x outstanding Metrics clone x fate).",
+                text="Product exploration of two real arenas with different pacing on one thread (allocation, links, weak pointers, handles, collector steps, dropping either arena): after every operation on one arena the other arena's canonical bookkeeping (incl. colours), drop log, Gc count, debt bits, phase and handles are bit-identical, its own oracles still hold, foreign handles are refused (also stale handles meeting recycled addresses after an arena died), and C02/C04 probes hold per arena in every product state. Compile-time half: 57 programs - every brand-preserving conversion applied to a pointer of arena 1 and used with arena 2 under nested callbacks, plus the cross-arena part of the C12 grammar - must be rejected (twins within one arena compile). Handles may be owned by heap values of the other arena (released when those are destructed), and a lifecycle grid requires a newly created arena to behave exactly as on a pristine thread after every sequence of <= 2 earlier arena lifecycles (pacing x outstanding Metrics clone x fate). A nested-operation grid issues 8 actions on arena B from inside destructors and callbacks that arena A runs (sweep, teardown asleep / mid-sweep, rootless_mutate, mutate / finalize / mutate_root callbacks) x 5 phases of B: B must behave exactly as when the action is issued at top level, A exactly as when the nested action does nothing.",
                 tech="explicit-state BFS over the product of two real arenas, non-interference oracle; enumeration of cross-arena programs with compiler verdict"),
 }
 
